@@ -30,6 +30,8 @@ type instState struct {
 	helper bool
 	// scratch: what a "lazy" part's closure reads (overwritten after every Render)
 	scratch string
+	// curObj: the type the running GenerateType / GenerateAliasType call is about
+	curObj *types.TypeName
 }
 
 var errScripted = errors.New("scripted generator failure")
@@ -82,6 +84,25 @@ func (g *core) render(c gengo.Context, parts []proto.Part) {
 	st := g.state()
 	for _, p := range parts {
 		switch {
+		case p.Names:
+			if st.curObj == nil || st.curObj.Pkg() == nil {
+				continue
+			}
+			q := st.curObj.Pkg().Path() + "." + st.curObj.Name()
+			forms := []struct {
+				tag string
+				s   snippet.Snippet
+			}{{"obj", snippet.ID(st.curObj)}, {"ref", snippet.ID(q)}}
+			if p.Flip {
+				forms[0], forms[1] = forms[1], forms[0]
+			}
+			c.Render(snippet.Block("\n"))
+			for _, f := range forms {
+				c.Render(snippet.Block("// NAMEOF " + f.tag + " " + q + " = "))
+				c.Render(f.s)
+				c.Render(snippet.Block("\n"))
+			}
+			c.Render(snippet.Block("\n"))
 		case p.State == "helper-once":
 			if !st.helper {
 				st.helper = true
@@ -243,6 +264,7 @@ func (g *core) apply(c gengo.Context, kind string, obj *types.TypeName, rules ma
 	st.seen++
 	ev := proto.Event{Kind: kind, Gen: g.script.Name, Pkg: ctxPkg(c), Inst: st.serial}
 	describe(&ev, obj)
+	st.curObj = obj
 	if g.script.Inspect && kind == "gen" {
 		ev.Problems = inspectFromGenerator(c.Package(""), c.Package)
 	}
